@@ -36,7 +36,7 @@ def run(ctx):
       n += 1
       ctx.analysed(b)
       base = d[:-len('.txid')]
-      gs = guard_strings(b, c.bb)
+      gs = guard_strings(b, c.bb, forms=True)
       special = any(g.startswith('Index::is_special_outpoint(') and g.endswith('==False') for g in gs)
       unb = any(re.match(r'^Eq\(.*outpoint,ord::unbound_outpoint\(\)\)==False$', g) for g in gs)
       nul = any(re.match(r'^Eq\(.*outpoint,OutPoint::null\(\)\)==False$', g) for g in gs)
